@@ -1760,7 +1760,15 @@ fn run_roa(c: &RoaCase, obs: &mut Obs) -> CheckResult {
                     .collect();
                 let exp: Vec<(bool, u128, u8, u8)> =
                     all.iter().map(|(v6, r)| (*v6, r.p.min(), r.p.len, r.max_len.unwrap_or(r.p.len))).collect();
-                ensure_eq!(got, exp, "prefixes of the accepted ROA");
+                // as sets: for builder-made ROAs the order (and repetition) of the
+                // entries is the builder's choice; the statement speaks of "every
+                // ROA prefix", i.e. of the set
+                let canon = |mut v: Vec<(bool, u128, u8, u8)>| {
+                    v.sort();
+                    v.dedup();
+                    v
+                };
+                ensure_eq!(canon(got), canon(exp), "prefixes of the accepted ROA (as a set)");
                 ensure_eq!(att.as_id().into_u32(), c.as_id, "AS of the accepted ROA");
                 check_accepted_digest("roa", &bytes, c.tamper, None)?;
                 Ok(())
